@@ -7,8 +7,9 @@ import IcyVerif.Model.Comp
 * `optCell` / `optimizeRow` / `optimizeRows` = the double loop of `optimize` with the carried attribute
   (`cur_attr`; it is NOT reset at a row end).  `none` = one of the two `unwrap()`s panics (font page or glyph
   missing from the shape map).
-* `flatCells` / `flatLayer` = `flat_clone(false)`: one opaque Normal layer of the buffer size holding
-  `Buffer::get_char` of every position (C13's `getChar`).
+* `flatCells` / `flatLayer` = `flat_clone(false)` (after the two C12 repairs): one Normal layer WITH alpha channel of
+  the buffer size holding `Buffer::get_char` of every position (C13's `getChar`), an invisible composited cell stored
+  as a default blank on its font page (`flatStore`).
 * `renderCell` = the pixel block one cell contributes to `render_to_rgba` (bold→bright fold, `128 >> cx`
   bit test, `min` of the cell font's size and font 0's size); a pixel is `panic` (glyph data shorter than
   the row index, or the `u8` shift `128 >> cx` with `cx ≥ 8`, a debug-profile panic), `keep` (never written:
@@ -75,13 +76,18 @@ def optimizeRows (fonts : Nat → Option Font) (norm : Bool) : Attr → List (Li
       | none => none
       | some (rs', carry'') => some (r' :: rs', carry'')
 
-/-- `flat_clone(false)`: `get_char((x, y))` for `y in 0..height`, `x in 0..width` -/
-def flatCells (hb : Cell → Nat × Nat) (isTerm : Bool) (S : List Layer) (W H : Nat) : List (List Cell) :=
-  (List.range H).map fun (y : Nat) => (List.range W).map fun (x : Nat) => getChar hb isTerm S (x : Int) (y : Int)
+/-- what `flat_clone(false)` stores for the composited cell `c`: the cell itself when it is visible, a default blank
+    on the cell's font page when it is not (`AttributedChar::default().with_font_page(ch.get_font_page())`) -/
+def flatStore (c : Cell) : Cell := if c.isVisible then c else defaultCell.withPage c.attr.page
 
-/-- the single layer of `Buffer::new(size)` after the cells were stored with `set_char` -/
+/-- `flat_clone(false)`: `get_char((x, y))` for `y in 0..height`, `x in 0..width`, stored through `flatStore` -/
+def flatCells (hb : Cell → Nat × Nat) (isTerm : Bool) (S : List Layer) (W H : Nat) : List (List Cell) :=
+  (List.range H).map fun (y : Nat) => (List.range W).map fun (x : Nat) => flatStore (getChar hb isTerm S (x : Int) (y : Int))
+
+/-- the single layer of `Buffer::new(size)` (Normal mode, offset 0, default font page 0) with
+    `has_alpha_channel = true` after the cells were stored with `set_char` -/
 def flatLayer (W H : Nat) (cells : List (List Cell)) : Layer :=
-  ⟨true, false, .normal, 0, 0, W, H, 0, cells⟩
+  ⟨true, true, .normal, 0, 0, W, H, 0, cells⟩
 
 /-- `ColorOptimizer::optimize(buf).layers[0]` -/
 def optimizeDoc (fonts : Nat → Option Font) (norm : Bool) (hb : Cell → Nat × Nat) (isTerm : Bool)
@@ -145,11 +151,10 @@ def hasPanic (blocks : List (List (List (List Px)))) : Bool :=
 
 /-! ## what `Buffer::get_char` of the flat clone returns for a stored cell -/
 
-/-- `getChar [flatLayer …]` at a stored cell `c`: visible and without transparent colour → `c`; a transparent
-    colour is resolved against the default cell; an invisible cell shows as the default cell -/
-def flatView (hb : Cell → Nat × Nat) (c : Cell) : Cell :=
-  if c.isVisible then
-    if c.hasTransparentColor then makeSolid hb c defaultCell else c
-  else defaultCell
+/-- `getChar [flatLayer …]` at a stored cell `c`: a visible cell comes back as it is (also with a transparent colour:
+    the layer has an alpha channel, nothing lies beneath, `finish` returns the pending cell unresolved); an invisible
+    cell (never stored by `flat_clone`, see `flatStore`) falls through to the end of `get_char` -/
+def flatView (isTerm : Bool) (c : Cell) : Cell :=
+  if c.isVisible then c else (if isTerm then defaultCell else invisibleCell).withPage 0
 
 end IcyVerif.ColorOpt
